@@ -63,6 +63,12 @@ def _covered_on_every_true_path(f: FuncInfo, chain: List[FuncInfo]) -> Optional[
         return None
     s_, o_ = f.self_name, f.param_names()[1]
     notes: List[str] = []
+    local_fns = set(f.nested())
+    for conj in dnf:
+        for k in conj:
+            a0 = sm.atoms.operands[k][0]
+            if k[0] == "truthy" and isinstance(a0, ast.Call) and isinstance(a0.func, ast.Name) and a0.func.id in local_fns:
+                return None         # part of the comparison lives in a local helper: the flow-insensitive rule decides
 
     def direct(e: Optional[ast.AST], who: str) -> Optional[str]:
         """``who.attr`` or ``who.attr.keys()`` -> attr"""
@@ -228,6 +234,14 @@ def run(chk: Check) -> None:
                 a = _side_attrs(f.node, s, consts)
                 b = _side_attrs(f.node, o, consts)
                 compared |= (a & b)
+                # comparisons moved into local helper functions count (same names for the two
+                # sides or the helper's own parameter names)
+                for inner in f.nested().values():
+                    ic = _loop_consts(inner)
+                    for sn in {s} | set(inner.param_names()):
+                        for on in {o} | set(inner.param_names()):
+                            if sn != on:
+                                compared |= (_side_attrs(inner.node, sn, ic) & _side_attrs(inner.node, on, ic))
             for p, attrs in state:
                 missing = [a for a in attrs if a not in compared]
                 chk.ob("R18.1", "%s.%s:compared" % (c.qualname, p), not missing, chain[0].loc(),
@@ -273,13 +287,15 @@ def run(chk: Check) -> None:
             if f.cls is not c and c.name != f.cls.name and f.cls.name in CONCRETE:
                 continue      # analysed with its own class
             n_zip += _zips(chk, f)
+            for inner in f.nested().values():
+                n_zip += _zips(chk, inner)      # comparisons moved into local helper functions
         # ---------------- R18.4
         for f in chain:
             if f.cls is c:
                 _optional(chk, f)
-    chk.floor("R18.3", "zip sites over child collections", n_zip, 6)
+    chk.floor("R18.3", "zip sites over child collections", n_zip, 4)
     npol = polarity(chk)
-    chk.floor("R18.5", "comparison atoms in deep_eq bodies", npol, 30)
+    chk.floor("R18.5", "comparison atoms in deep_eq bodies", npol, 21)
     adc = repo.cls("AuxDataContainer").methods.get("deep_eq")
     if adc is not None:
         chk.saw(adc)
@@ -411,7 +427,61 @@ def _length_tested(f: FuncInfo, z: ast.Call, cands: List[Tuple[str, str]]) -> bo
     return bool(eq_br) and cfg.path_avoiding(cfg.entry, zn, eq_br) is None
 
 
+def _optional_by_summary(chk: Check, f: FuncInfo) -> bool:
+    """loop-free bodies: case split (E11).  self.x.deep_eq(other.x) is evaluated only after
+    ``self.x is None`` came out false, and where self.x is None the result is true only if
+    other.x is None as well — in any spelling (and-chain, conditional expression, guards)"""
+    from ..summaries import Outside, Summary
+    try:
+        sm = Summary(f.node)
+    except Outside:
+        return False
+    s, o = f.self_name, f.param_names()[1]
+    seen: Dict[str, Dict[str, bool]] = {}
+    for p in sm.paths:
+        if p.kind == "raise":
+            continue
+        outs = [(p.facts, False)] if p.returns_none() else list(sm.branches(p.value, p.facts))
+        for facts, v in outs:
+            order = list(facts)
+            for idx, k in enumerate(order):
+                a0 = sm.atoms.operands[k][0]
+                if not (k[0] == "truthy" and isinstance(a0, ast.Call) and isinstance(a0.func, ast.Attribute)
+                        and a0.func.attr == "deep_eq" and len(a0.args) == 1):
+                    continue
+                recv, arg = attr_path(a0.func.value), attr_path(a0.args[0])
+                if not recv or len(recv) != 2 or recv[0] != s or arg != (o, recv[1]):
+                    continue
+                x = recv[1]
+                if x not in ("entry_point", "referent") and not any(
+                        kk[0] == "Is" and set(kk[1:]) == {"None", "%s.%s" % (s, x)} for kk in sm.atoms.operands):
+                    continue
+                st = seen.setdefault(x, {"guard": True, "symmetric": True, "tested": False})
+                guard = [kk for kk in order[:idx] if kk[0] == "Is" and set(kk[1:]) == {"None", "%s.%s" % (s, x)}]
+                if not guard or facts[guard[0]] is not False:
+                    st["guard"] = False
+            for k, val in facts.items():
+                if k[0] == "Is" and len(k) == 3 and "None" in k[1:] and val:
+                    other_ = [z for z in k[1:] if z != "None"][0]
+                    if other_.startswith(s + ".") and other_.count(".") == 1:
+                        x = other_.split(".")[1]
+                        if x in seen or x in ("entry_point", "referent"):
+                            st = seen.setdefault(x, {"guard": True, "symmetric": True, "tested": False})
+                            st["tested"] = True
+                            ko = [kk for kk in facts if kk[0] == "Is" and set(kk[1:]) == {"None", "%s.%s" % (o, x)}]
+                            if v and not (ko and facts[ko[0]] is True):
+                                st["symmetric"] = False
+    for x, st in seen.items():
+        chk.ob("R18.4", "%s:%s-none-guard" % (f.qualname, x), st["guard"], f.loc(),
+               "%s calls self.%s.deep_eq(...) on a path where self.%s may be None" % (f.qualname, x, x), 2)
+        chk.ob("R18.4", "%s:%s-none-symmetric" % (f.qualname, x), st["symmetric"] and st["tested"], f.loc(),
+               "when self.%s is None, %s must report inequality if other.%s is not None" % (x, f.qualname, x), 2)
+    return True
+
+
 def _optional(chk: Check, f: FuncInfo) -> None:
+    if _optional_by_summary(chk, f):
+        return
     s, o = f.self_name, f.param_names()[1]
     cfg = None
     for n in walk_no_nested(f.node):
@@ -450,6 +520,12 @@ def _optional(chk: Check, f: FuncInfo) -> None:
                     i = cfg.info[tn]
                     if i.kind == "test" and isinstance(i.ast, ast.Compare) and \
                             attr_path(i.ast.left) == (o, x) and isinstance(i.ast.ops[0], (ast.Is, ast.IsNot)):
+                        other_tested = True
+                    # ``return other.x is None``: the comparison is the result
+                    if isinstance(i.ast, ast.Return) and i.ast.value is not None and any(
+                            isinstance(c_, ast.Compare) and len(c_.ops) == 1 and isinstance(c_.ops[0], (ast.Is, ast.IsNot))
+                            and (attr_path(c_.left) == (o, x) or attr_path(c_.comparators[0]) == (o, x))
+                            for c_ in ast.walk(i.ast.value)):
                         other_tested = True
             chk.ob("R18.4", "%s:%s-none-symmetric" % (f.qualname, x), other_tested, f.loc(n),
                    "when self.%s is None, %s must report inequality if other.%s is not None" % (x, f.qualname, x), 2)
